@@ -303,17 +303,20 @@ package priority
 //@   modifies content(dsc.actual), gInfl, gInflP, gClock, gStop
 //@   ensures [*] WF(dsc)
 //@   ensures [* C16] old(gStop) ==> gStop
+//@   ensures [* C16] result ==> gStop
+//@   ensures [* C16] (gStop && !old(gStop)) ==> result
 //@   ensures [C16] polls: gPolls > old(gPolls)
 
 //@ func (*Discipline).waitCalcTactic
 //@   requires [*] WF(dsc)
 //@   modifies content(dsc.tactic), content(dsc.actual), dsc.uncrowded, anyelems(dsc.uncrowded), gDivErr, gInfl, gInflP, gClock, gStop
 //@   ensures [*] WF(dsc)
-//@   ensures [* C01] result == nil ==> RINV(dsc)
-//@   ensures [C07 C15] (gDivErr && !old(gDivErr)) ==> result == ErrDividerBad
+//@   ensures [* C01] (result1 == nil && !result0) ==> RINV(dsc)
+//@   ensures [C07 C15] (gDivErr && !old(gDivErr)) ==> result1 == ErrDividerBad
 //@   ensures [C07 C15] old(gDivErr) ==> gDivErr
-//@   ensures [C07 C15] result != nil ==> gDivErr
+//@   ensures [C07 C15] result1 != nil ==> gDivErr
 //@   ensures [* C16] old(gStop) ==> gStop
+//@   ensures [* C16] result0 ==> gStop
 //@   loop 0
 //@     invariant [*] WF(dsc)
 //@     invariant [C07 C15] gDivErr == old(gDivErr)
